@@ -26,12 +26,18 @@ def slot_env(b):
         yield st, s
 
     def put_nowait(interp, st, args, kwargs):
-        st.emit('slot_put', slot=args[-1])
+        st.emit('slot_put', slot=args[-1], via_loop=bool(st.ghost.get('via_loop')))
         st.ghost['slots_held'] = st.ghost.get('slots_held', 0) - 1
         yield st, None
 
     me._attrs['_slots'] = Obj('slots', get=Model('get', get), put_nowait=Model('put_nowait', put_nowait))
-    b.bind('loop', Obj('loop', call_soon_threadsafe=Model('call_soon_threadsafe', lambda i, s, a, k: i.call(s, a[0], list(a[1:]), {}))))
+    def call_soon_threadsafe(interp, st, args, kwargs):
+        st.ghost['via_loop'] = True
+        for s2, v in interp.call(st, args[0], list(args[1:]), {}):
+            s2.ghost['via_loop'] = False
+            yield s2, v
+
+    b.bind('loop', Obj('loop', call_soon_threadsafe=Model('call_soon_threadsafe', call_soon_threadsafe)))
 
     class Fut:
         def __init__(self, v):
@@ -58,6 +64,9 @@ def slot_post(prop, label):
                 ok = len(gets) == 1 and len(puts) == 1
                 res.oblige(p, f'{prop}.{label}.slot_returned_on_every_exit[{sig}]', z3.BoolVal(ok) if not ok else
                            sym.lift(puts[0].data['slot'], INT).z == gets[0].data['slot'].z)
+                if label == 'acquire_slot_threadsafe' and ok:
+                    # asyncio queues are not thread-safe: a worker thread must hand the slot back THROUGH the loop
+                    res.oblige(p, f'{prop}.{label}.slot_returned_through_the_event_loop[{sig}]', z3.BoolVal(bool(puts[0].data['via_loop'])))
                 ys = p.events('yield')
                 res.oblige(p, f'{prop}.{label}.body_runs_while_holding_the_slot[{sig}]', z3.BoolVal(
                     len(ys) == 1 and p.st.events.index(gets[0]) < p.st.events.index(ys[0]) < p.st.events.index(puts[0])) if ok else z3.BoolVal(False))
